@@ -27,8 +27,9 @@ DecEmpty(d) == d.sp = "bad_empty"                     \* the empty string
 DecStr(d)   == ToString(d.n) \o "/" \o d.sp            \* how a verbatim decimal shows in attributes
 
 \* round half away from zero of n/d, for n >= 0, d > 0
-HalfUp(n, d) == (2 * n + d) \div (2 * d)
-IsTie(n, d)  == (2 * n) % (2 * d) = d
+\* (written so that no intermediate value exceeds max(n, 2d): TLC integers are 32-bit)
+HalfUp(n, d) == (n \div d) + (IF 2 * (n % d) >= d THEN 1 ELSE 0)
+IsTie(n, d)  == 2 * (n % d) = d
 
 \* The pro-rata quotient fee * rq / q is formed by the contract in 28-digit decimals:
 \* the exact rational is used here and, only when it is a half-unit tie, the next lower
